@@ -95,7 +95,11 @@ CLAIMED = {
         "level": "Decides offset-table agreement between the independent layout walks and the aliasing structure of lists vs values; value semantics and exact addressing of generated code for all programs are not decided.",
         "note": "Partial: clauses L1-L3.",
     },
+    "C05": {
+        "technique": "cross-table agreement with rustc as oracle: ADT repr/variant-order facts, rustc layout_of answers exported per Rust type vs the crate's own Primitive::layout table, associated-type table (AsParam/Transformed) vs the pool's reference-type table, statement-order checks of hidden-parameter assembly, fn-pointer type strings of the ABI adapters",
+        "level": "Decides agreement of every table both sides of the boundary derive layout, tags and passing convention from (all mirror enums, all 16 primitive rows, all 28 Value impls, all producers/consumers of the hidden parameters); equality of arbitrary values across the ABI of generated code is not decided.",
+        "note": "Partial: clauses A1-A4; context field offsets (proc-macro template) not decided.",
+    },
 }
-_PENDING = "check under construction in this session; not yet claimed"
-NOT_APPLICABLE = {p: _PENDING for p in
-                  ["C%02d" % i for i in range(1, 21)] if p not in CLAIMED}
+NOT_APPLICABLE = {}
+assert all(("C%02d" % i) in CLAIMED for i in range(1, 21))
